@@ -91,7 +91,7 @@ def verdict (toks : List String) (out : String) : String :=
             let driftI := single && toHex (InvBWT.invertModel bwt (bwt.foldl max 0 + 2)) ≠ invS
             let nt := n ≥ 4 && (dedupTags (bwt.map toString)).length ≥ 2
             "ok" ++ (if nt then " nt" else "")
-              ++ (if k > 64 then " k>64" else " k<=64")
+              ++ (if k > Gen.Occ.hiCheckpointThreshold then s!" k>{Gen.Occ.hiCheckpointThreshold}" else s!" k<={Gen.Occ.hiCheckpointThreshold}")
               ++ (if n > 2 * k then " cp>=3" else "")
               ++ (if k ≥ n then " k>=n" else "")
               ++ (if q.any (fun c => !bwt.contains c) then " absent-sym" else "")
